@@ -77,8 +77,10 @@ func (ch *ConnectionHandler) acceptStream() {
 			log.Debugf("Stream closed, existing loop.")
 			return
 		} else if err != nil {
-			log.WithError(err).Errorf("Error accepting stream: %v", err)
-			continue
+			// every error of AcceptStream is final for the session (closed pipe, keep-alive timeout,
+			// protocol violation): polling it again would spin forever
+			log.WithError(err).Errorf("Error accepting stream, leaving the session: %v", err)
+			return
 		}
 		stream = streams.NewNamedConnection(stream, stream.RemoteAddr().String())
 		log.Debugf("[Server] New logical connection accepted: %v", stream)
